@@ -154,7 +154,7 @@ func (e *scalar) Sqrt(u *scalar) (*scalar, uint64) {
 
 // CMove sets out to u if c == 0, and to v otherwise.
 func CMove(out *MontgomeryDomainFieldElement, c uint64, u, v *MontgomeryDomainFieldElement) {
-	Selectznz((*[4]uint64)(out), uint1(c), (*[4]uint64)(u), (*[4]uint64)(v))
+	Selectznz((*[4]uint64)(out), uint1(IsNonZero(c)), (*[4]uint64)(u), (*[4]uint64)(v))
 }
 
 // ReduceBytes sets out to a reduction of input.
